@@ -119,7 +119,7 @@ class Gen:
             last = i == n - 1
             w = [(30, "simple"), (14, "await"), (8, "tick")]
             if depth < self.max_depth:
-                w += [(12, "if"), (10, "while")]
+                w += [(12, "if"), (10, "while"), (5, "match")]
             if in_loop and last:
                 w += [(6, "break")]
                 if susp:
@@ -144,6 +144,14 @@ class Gen:
                 then = self.block(depth + 1, in_loop, in_sub, susp)
                 els = self.block(depth + 1, in_loop, in_sub, susp) if rs.below(2) else None
                 out.append(["if", self.cond(), then, els])
+            elif k == "match":
+                # match on the input d with literal cases (lowered to one VHDL case statement when no case suspends); in a
+                # third of them only the default branch may suspend
+                ks = rs.sample(list(range(16)), rs.range(1, 3))
+                plain = rs.below(3) == 0
+                arms = [[kk, [self.simple()] if plain else self.block(depth + 1, in_loop, in_sub, susp)] for kk in ks]
+                dflt = self.block(depth + 1, in_loop, in_sub, susp) if (plain or rs.below(3)) else None
+                out.append(["match", arms, dflt])
             elif k == "while":
                 c = rs.below(10)
                 cond = "TRUE" if c < 3 else ("FALSE" if c == 3 else self.cond())
@@ -176,7 +184,38 @@ class Gen:
                 return True
             if s[0] == "if" and (self._can_exit(s[2]) or (s[3] and self._can_exit(s[3]))):
                 return True
+            if s[0] == "match" and (any(self._can_exit(b) for _, b in s[1]) or (s[2] and self._can_exit(s[2]))):
+                return True
         return False
+
+    def program_undefaulted(self):
+        """a single-state body that drives ONLY objects without a default / marked noreset (no marks, no variables, no
+        suspension): the context has nothing to reset, but it still must not execute while its reset is active"""
+        rs = self.rs
+        self.targets = ["nd", "nr"]
+
+        def stmt(depth):
+            c = rs.below(5 if depth < 2 else 3)
+            src = rs.choice([["in", "d"], ["addk", ["in", "d"], rs.range(1, 3)], ["port", rs.choice(["q", "r"])], ["k", rs.below(16)]])
+            if c < 2:
+                return ["sig", rs.choice(self.targets), src]
+            if c == 2:
+                hi = rs.below(W)
+                lo = rs.below(hi + 1)
+                return ["sigs", "nr", hi, lo, ["in", "d"]]
+            return ["if", self.bitcond(), [stmt(depth + 1) for _ in range(rs.range(1, 2))], [stmt(depth + 1)] if rs.below(2) else None]
+
+        body = [stmt(0) for _ in range(rs.range(1, 4))]
+        return {
+            "edge": "falling" if rs.below(6) == 0 else "rising",
+            "step_cond": rs.below(4) == 0,
+            "reset": {"kind": self.reset_kind, "on_reset": False, "extra_ports": True, "records": False},
+            "subs": [],
+            "body": body,
+            "vars": {v: rs.below(16) for v in self.vars},
+            "nmark": 0,
+            "push": False,
+        }
 
     def program(self):
         rs = self.rs
@@ -328,6 +367,14 @@ def r_block(stmts, ind, out):
             if s[3] is not None:
                 out.append(f"{pad}else:")
                 r_block(s[3], ind + 1, out)
+        elif k == "match":
+            out.append(f"{pad}match self.d:")
+            for kk, b in s[1]:
+                out.append(f"{pad}    case {kk}:")
+                r_block(b, ind + 2, out)
+            if s[2] is not None:
+                out.append(f"{pad}    case _:")
+                r_block(s[2], ind + 2, out)
         elif k == "while":
             c = {"TRUE": "True", "FALSE": "False"}.get(s[1]) if isinstance(s[1], str) else r_cond(s[1])
             out.append(f"{pad}while {c}:")
@@ -352,6 +399,11 @@ def uses_var_write(stmts, acc):
                 uses_var_write(s[3], acc)
         elif s[0] == "while":
             uses_var_write(s[2], acc)
+        elif s[0] == "match":
+            for _, b in s[1]:
+                uses_var_write(b, acc)
+            if s[2]:
+                uses_var_write(s[2], acc)
 
 
 RESET_KINDS = {
@@ -463,6 +515,8 @@ def count_nodes(stmts):
             n += count_nodes(s[2]) + (count_nodes(s[3]) if s[3] else 0)
         elif s[0] == "while":
             n += count_nodes(s[2])
+        elif s[0] == "match":
+            n += sum(count_nodes(b) for _, b in s[1]) + (count_nodes(s[2]) if s[2] else 0)
     return n
 
 
@@ -472,7 +526,9 @@ def shape(prog):
     def sh(stmts):
         out = []
         for s in stmts:
-            if s[0] == "if":
+            if s[0] == "match":
+                out.append(("match", tuple(sh(b) for _, b in s[1]), sh(s[2]) if s[2] else None))
+            elif s[0] == "if":
                 out.append(("if", sh(s[2]), sh(s[3]) if s[3] else None))
             elif s[0] == "while":
                 out.append(("while", s[1] if isinstance(s[1], str) else "c", sh(s[2])))
